@@ -253,7 +253,9 @@ class Case:
                 if ev[1]:
                     self.peer_frame(10, pend if pend else b"late")
                 else:
-                    self.peer_frame(10, b"nomatch")
+                    # same length as the pending ping, one octet different (so that only the comparison with
+                    # autoPingPending, not the unpacking of the payload, tells it apart)
+                    self.peer_frame(10, (bytes([pend[0] ^ 0xFF]) + pend[1:]) if pend else b"nomatch-nomatch")
             elif k == "peerViolation":
                 self.peer_frame(11, b"")
             elif k == "peerInvalid":
